@@ -455,11 +455,22 @@ def _workload(tier, rng, shard, nshards):
                     edge = refs[-1] + f * D
                     v = make_tier("I", "v", [(edge, edge + 0.5, "v")], edge, 6.0 + 20 * D) if rng.random() < 0.6 else make_tier("P", "v", [(edge, "v")], edge, 6.0 + 20 * D)
                 tg.addTier(v, reportingMode="silence")
+            refname = "ref"
+            if k % 3 == 1:
+                # which tier is the reference is the caller's choice, and so is its name: here the reference is called like the
+                # tier that was aligned the last time round, and the tier to align like the last reference
+                with core.paused():
+                    swap = {"ref": "t", "t": "ref"}
+                    tg2 = Textgrid()
+                    for tt in tg.tiers:
+                        tg2.addTier(tt.new(name=swap.get(tt.name, tt.name)), reportingMode="silence")
+                    tg, refname = tg2, "t"
+                REC.cls("C14:align:reference-named-like-an-earlier-aligned-tier")
             if D == 5e-3 and rng.random() < 0.6:
                 REC.cls("C14:align:default-maxDifference")
-                call(praatio_scripts.alignBoundariesAcrossTiers, tg, "ref")  # the documented default is 0.005
+                call(praatio_scripts.alignBoundariesAcrossTiers, tg, refname)  # the documented default is 0.005
             else:
-                call(praatio_scripts.alignBoundariesAcrossTiers, tg, "ref", D)
+                call(praatio_scripts.alignBoundariesAcrossTiers, tg, refname, D)
     m = (5000 if tier == "quick" else 100000) // nshards
     for k in range(m):
         _, src = gen.rand_time_source(rng)
